@@ -11,6 +11,7 @@ with λ₀ = 0 and arbitrary c, a, α, β (`cog5_energy`).
 import EPV.Gen.Cog5D
 import EPV.Spec.Euler1D
 import EPV.Lemmas.Euler1D
+import EPV.Lemmas.HydroRobust
 import EPV.Tactics
 
 set_option linter.all false
@@ -25,8 +26,8 @@ theorem cog5_leaves : Cog5.okLeaves = [0] := rfl
 theorem cog5_mass (p : Cog5.P) (r t : ℝ) (hr : 0 < r) :
     massRes (Cog5.L0.density p) (Cog5.L0.velocity p) 2 r t = 0 := by
   unfold massRes dr dt
-  rw [(Cog5.L0.density_hasDerivAt_t p r t).deriv, (Cog5.L0.density_hasDerivAt_r p r t (pow_ne_zero 2 hr.ne')).deriv,
-    (Cog5.L0.velocity_hasDerivAt_r p r t).deriv]
+  epv_hydro_rw_derivs [Cog5.L0.density_hasDerivAt_t p r t, Cog5.L0.density_hasDerivAt_r p r t,
+    Cog5.L0.velocity_hasDerivAt_r p r t]
   simp only [epv_deriv, epv_leaf]
   field_simp
   ring
@@ -34,8 +35,8 @@ theorem cog5_mass (p : Cog5.P) (r t : ℝ) (hr : 0 < r) :
 theorem cog5_momentum (p : Cog5.P) (r t : ℝ) (hr : 0 < r) (hΓ : p.Gamma ≠ 0) (hρ : p.rho0 ≠ 0) :
     momResT (Cog5.L0.density p) (Cog5.L0.velocity p) (Cog5.L0.temperature p) p.Gamma r t = 0 := by
   unfold momResT dr dt
-  rw [(Cog5.L0.velocity_hasDerivAt_t p r t).deriv, (Cog5.L0.velocity_hasDerivAt_r p r t).deriv,
-    (Cog5.L0.density_hasDerivAt_r p r t (pow_ne_zero 2 hr.ne')).deriv, (Cog5.L0.temperature_hasDerivAt_r p r t).deriv]
+  epv_hydro_rw_derivs [Cog5.L0.velocity_hasDerivAt_t p r t, Cog5.L0.velocity_hasDerivAt_r p r t,
+    Cog5.L0.density_hasDerivAt_r p r t, Cog5.L0.temperature_hasDerivAt_r p r t]
   simp only [epv_deriv, epv_leaf]
   field_simp
   ring
@@ -43,8 +44,8 @@ theorem cog5_momentum (p : Cog5.P) (r t : ℝ) (hr : 0 < r) (hΓ : p.Gamma ≠ 0
 theorem cog5_energy_hydro (p : Cog5.P) (r t : ℝ) (hr : 0 < r) (hΓ : p.Gamma ≠ 0) :
     energyHydroT (Cog5.L0.velocity p) (Cog5.L0.temperature p) p.Gamma (1 / 2) 2 r t = 0 := by
   unfold energyHydroT dr dt
-  rw [(Cog5.L0.temperature_hasDerivAt_t p r t).deriv, (Cog5.L0.velocity_hasDerivAt_r p r t).deriv,
-    (Cog5.L0.temperature_hasDerivAt_r p r t).deriv]
+  epv_hydro_rw_derivs [Cog5.L0.temperature_hasDerivAt_t p r t, Cog5.L0.velocity_hasDerivAt_r p r t,
+    Cog5.L0.temperature_hasDerivAt_r p r t]
   simp only [epv_deriv, epv_leaf]
   field_simp
   ring
